@@ -347,7 +347,7 @@ pub fn build_direct(w: &World, fill: Fill, keys: Option<&[&'static str]>) -> Fix
         for &f in &w.order {
             let ds = w.defs_of(f);
             if ds.is_empty() { continue; }
-            let mut set = std::collections::HashSet::new();
+            let mut set = crate::coll::HashSet::new();
             for i in ds { set.insert(w.defs[i].name.to_string()); }
             db.file_definitions.insert(PathBuf::from(path(f)), set);
         }
